@@ -1,3 +1,5 @@
 #include "softhsm_env.h"
 CK_ULONG vp_in_ses[VP_NSES];
 CK_ULONG vp_g_sfx[VP_NSFX];
+CK_ULONG vp_in_tmpl[VP_TMPL_MAX * VP_NTF];
+unsigned char vp_in_mparam[16];
